@@ -22,3 +22,61 @@ Example C20_extra_line_example :
   option_map (fun s => (iter nat s, stat nat s)) (fst r) = Some (2%N, NumericalError) /\
   lines nat (snd r) = [0; 1; 2]%N.
 Proof. vm_compute. split; reflexivity. Qed.
+
+(** * routing (model of src/io/mod.rs: Solver/Route.v) *)
+Require Import Clarabel.Solver.Route Clarabel.Solver.RouteLemmas.
+
+(** every history of target switches, writes, retrievals and clones: each sink holds exactly
+    the writes issued while it was the current target, in order *)
+Theorem C20_route_refines :
+  forall (ops : list op) (s : Route.st),
+    let s' := fst (Route.run s ops) in
+    (forall i, w_file (wld s') i = w_file (wld s) i ++ routed (is_file i) (akind_of (tgt s)) ops) /\
+    (forall i, w_stream (wld s') i = w_stream (wld s) i ++ routed (is_stream i) (akind_of (tgt s)) ops) /\
+    w_stdout (wld s') = w_stdout (wld s) ++ routed is_stdout (akind_of (tgt s)) ops.
+Proof. exact route_refines. Qed.
+
+(** the same writes deliver identical bytes to a buffer, a stream and a file *)
+Theorem C20_same_bytes_all_targets :
+  forall (pre : list op) (ws : list bytes) (i j : N),
+    let s0 := fst (Route.run Route.init pre) in
+    let sb := fst (Route.run Route.init (pre ++ ToBuffer :: map Write ws)) in
+    let ss := fst (Route.run Route.init (pre ++ ToStream i :: map Write ws)) in
+    let sf := fst (Route.run Route.init (pre ++ ToFile j :: map Write ws)) in
+    tgt sb = TBuffer (concat ws) /\
+    snd (Route.step sb GetBuffer) = OBuf (concat ws) /\
+    w_stream (wld ss) i = w_stream (wld s0) i ++ concat ws /\
+    w_file (wld sf) j = w_file (wld s0) j ++ concat ws.
+Proof. exact same_bytes_all_targets. Qed.
+
+Theorem C20_write_frame :
+  forall (s : Route.st) (b : bytes),
+    let s' := fst (Route.step s (Write b)) in
+    (forall i, akind_of (tgt s) <> AFile i -> w_file (wld s') i = w_file (wld s) i) /\
+    (forall i, akind_of (tgt s) <> AStream i -> w_stream (wld s') i = w_stream (wld s) i) /\
+    (akind_of (tgt s) <> AStdout -> w_stdout (wld s') = w_stdout (wld s)) /\
+    akind_of (tgt s') = akind_of (tgt s).
+Proof. exact write_frame. Qed.
+
+Theorem C20_sink_silent :
+  forall (w : world) (ws : list bytes),
+    fst (Route.run (Route.mkSt TSink w) (map Write ws)) = Route.mkSt TSink w.
+Proof. exact sink_silent. Qed.
+
+Theorem C20_cloned_stream_silent :
+  forall (i : N) (w : world) (ws : list bytes),
+    wld (fst (Route.run (Route.mkSt (TStream i) w) (CloneInfo :: map Write ws))) = w.
+Proof. exact cloned_stream_silent. Qed.
+
+Theorem C20_get_buffer_spec :
+  forall s : Route.st,
+    (snd (Route.step s GetBuffer) = OErr <-> akind_of (tgt s) <> ABuffer) /\
+    (forall c, tgt s = TBuffer c -> snd (Route.step s GetBuffer) = OBuf c) /\
+    fst (Route.step s GetBuffer) = s.
+Proof. exact get_buffer_spec. Qed.
+
+(** non-vacuity: a mixed history *)
+Example C20_route_example :
+  c_route [ToBuffer; Write [104; 105]%N; GetBuffer; ToStream 1%N; Write [33]%N; CloneInfo; Write [34]%N; GetBuffer]
+          [[0]; [0]; [2; 104; 105]; [0]; [0]; [0]; [0]; [1]]%N 4%N [] [(1, [33])]%N = 0%N.
+Proof. vm_compute. reflexivity. Qed.
